@@ -1538,6 +1538,7 @@ func run(c *vkit.Collector, rng *vkit.Rng, budget int) {
 	runTilings(c, rng, budget)
 	for k := 0; k < 6*budget; k++ {
 		runLaxBalanced(c, rng, k)
+		runIncrementalTiling(c, rng, k)
 	}
 }
 
